@@ -10,6 +10,9 @@ import PyamgV.Proofs.ExtComplexGsEnergy
 import PyamgV.Proofs.ExtC05BridgeEx
 import PyamgV.Proofs.ExtC05BridgeCEx
 import PyamgV.Proofs.ExtC05BridgeBool
+import PyamgV.Proofs.ExtC05YEx
+import PyamgV.Proofs.ExtC05YRefine
+import PyamgV.Proofs.ExtC05YBlock
 
 /-! # C05 — a solver that reports symmetric smoothing yields a Hermitian preconditioner
 
@@ -329,5 +332,138 @@ restate complex_check_example_runs := PyamgV.C05ExC.denseMC_isSome
 restate complex_check_example_hermitian := PyamgV.C05ExC.example_denseM_hermitian
 /-- … with `R = Pᵀ` in the place of `Pᴴ` the checker says `false` -/
 restate complex_check_example_rejects := PyamgV.C05ExC.checkC_rejects
+
+/-! ## the other smoother families the flag treats as symmetric (extension E36, Proofs/ExtC05Y*.lean)
+
+Extended executed model `PyamgV.C05Y.denseMY` (`Model/ExtC05YCycle.lean`, driver op `ext_c05y_cyc`, compared with
+`aspreconditioner` on every run): `chebyshev` / `richardson` (coefficients of the installed closures through a per-level
+oracle), `block_jacobi` / `block_gauss_seidel` with block size > 1 (diagonal blocks inverted exactly), `jacobi_ne`,
+`gauss_seidel_ne`, `gauss_seidel_nr`.  Operator level: `V` any module over an ordered field, `sweepM A Qs` the
+composition of a list of steps, `powM` = `iterations`. -/
+
+/-- a sweep over steps with self-adjoint operators (matrix rows, blocks, subdomains), run backwards, is the adjoint of
+the forward sweep -/
+restate sweep_reverse_adjoint := PyamgV.C05Y.sweepM_reverse_adj
+/-- forward followed by backward (`sweep='symmetric'`) is self-adjoint -/
+restate sweep_symmetric_selfadjoint := PyamgV.C05Y.sweepM_symmetric_selfadj
+/-- **polynomial family**: `p(A)` with the same real coefficients before and after is an adjoint pair, any `iterations` -/
+restate poly_pair := PyamgV.C05Y.poly_pair
+/-- the exact inverse of a symmetric (block) diagonal is symmetric -/
+restate inverse_selfadjoint := PyamgV.C05Y.inv_selfadj
+/-- **`block_jacobi`** with the same `omega` before and after is an adjoint pair -/
+restate blockJacobi_pair := PyamgV.C05Y.blockJacobi_pair
+/-- a block / subdomain sweep `x ← x + I S Iᵀ (b − A x)` is the linear iteration with operator `sweepM` of the block steps -/
+restate blockSweep_isLinIter := PyamgV.C05Y.subSweep_isLinIter
+/-- the exact inverse of the symmetric diagonal block `Iᵀ A I` is symmetric -/
+restate local_inverse_selfadjoint := PyamgV.C05Y.local_inverse_selfadj
+/-- **forward / backward `block_gauss_seidel` (or Schwarz) sweeps are an adjoint pair** … -/
+restate blockSweep_pair := PyamgV.C05Y.blockSweep_pair
+/-- … and the symmetric sweep is self-adjoint -/
+restate blockSweep_symmetric := PyamgV.C05Y.blockSweep_symmetric
+/-- `levelOk a b` with both specifications in the extended model (one level: one coefficient oracle) ⇒ the installed
+smoothers are partners: same family, same parameters (coefficients, block size, `omega`), same iteration count, and an
+admissible sweep pair -/
+restate levelOk_partnerY := PyamgV.C05Y.levelOk_partnerY
+/-- partners outside the normal-equation families have adjoint operators when the family's steps are symmetric -/
+restate partnerY_adjoint := PyamgV.C05Y.partnerY_adjoint
+/-- **flag `True`, no normal-equation smoother installed ⇒ `⟨M u, v⟩ = ⟨u, M v⟩` for the V- and the W-cycle**
+(smoothers of the extended model) -/
+restate flag_cycle_symmetricY := PyamgV.C05Y.flag_cycle_symmetricY
+/-- decision-table facts for the extended families (kernel evaluation) -/
+restate table_extended_families := PyamgV.C05Y.table_extended_families
+/-- non-vacuity on the executed model: block Gauss–Seidel forward / backward, block Jacobi (block size 2) and a
+polynomial smoother on the 4-point Poisson hierarchy are adjoint pairs and `denseMY` is symmetric -/
+restate extended_model_symmetric := PyamgV.C05YEx.extended_model_symmetric
+
+
+/-! ### refinement: the executed smoothers of the extended model are these operators
+
+`vec` reads an array as a function, `csrLin` / `bsrLin` are the operators of the CSR level matrix / of its BSR copy,
+`blkQ i` applies the `i`-th stored inverse block to the `i`-th block of a vector. -/
+
+/-- **the executed `chebyshev` / `richardson` smoother** (`applySmY`, i.e. `pyPolynomial` of C09) always returns and is
+`x + powM A p(A) k (b − A x)` with `p(A) = polyOp` -/
+restate executed_poly_smoother := PyamgV.C05Y.executed_poly_smoother
+/-- … whose operator is self-adjoint for a symmetric level matrix: equal coefficients before and after are an adjoint
+pair on the executed model -/
+restate executed_poly_selfadj := PyamgV.C05Y.executed_poly_selfadj
+/-- one block row of the executed `block_gauss_seidel` kernel is `x + blkQ i (b − B x)` -/
+restate executed_bgs_step := PyamgV.C05Y.bgsStep_vec
+/-- **the executed `block_gauss_seidel` driver** (forward, backward, symmetric; `iterations = k`; inverse blocks with
+`Dinv_i B_ii = I`) always returns and is `x + powM B (sweepM B (dirL sweep steps)) k (b − B x)`: the operator `smOpY` of
+`partnerY_adjoint` -/
+restate executed_bgs_smoother := PyamgV.C05Y.executed_bgs_smoother
+/-- `blkQ i` is symmetric when the stored inverse block is -/
+restate blkQ_selfadj := PyamgV.C05Y.blkQ_selfadj
+/-- **executed forward / backward block Gauss–Seidel are an adjoint pair, executed symmetric block Gauss–Seidel is
+self-adjoint** (symmetric level operator, symmetric inverse blocks) -/
+restate executed_bgs_pair := PyamgV.C05Y.executed_bgs_pair
+/-- **the executed `block_jacobi` driver** is `x + powM B (ω D⁻¹) k (b − B x)` … -/
+restate executed_bjac_smoother := PyamgV.C05Y.executed_bjac_smoother
+/-- … with a self-adjoint operator -/
+restate executed_bjac_selfadj := PyamgV.C05Y.executed_bjac_selfadj
+
+/-! ### normal-equation smoothers: the precise reason for finding `ne-nr-smoothers-flagged-symmetric` -/
+
+/-- what a symmetric cycle needs, in terms of error propagators: `Q_post = Q_preᵀ` makes `I − Q_pre A`, `I − Q_post A`
+adjoint for the ENERGY form `⟨A·,·⟩` -/
+restate adjoint_pair_is_energy_adjoint := PyamgV.C05Y.adj_pair_energy
+/-- forward / backward `gauss_seidel_ne` (same `omega`, any `iterations`): the error propagators are adjoint for the
+EUCLIDEAN form instead (no symmetry of `A` needed) -/
+restate ne_sweep_err_adj := PyamgV.C05Y.ne_sweep_err_adj
+/-- symmetric `gauss_seidel_ne`: Euclidean-self-adjoint error propagator -/
+restate ne_sweep_symmetric_err_selfadj := PyamgV.C05Y.ne_sweep_symmetric_err_selfadj
+/-- forward / backward `gauss_seidel_nr`: the RESIDUAL propagators `I − A Q` are adjoint for the Euclidean form -/
+restate nr_sweep_res_adj := PyamgV.C05Y.nr_sweep_res_adj
+/-- `jacobi_ne`: `I − ω Aᵀ Dinv A` is self-adjoint for the Euclidean form -/
+restate jacobi_ne_err_selfadj := PyamgV.C05Y.jacobi_ne_err_selfadj
+/-- the same for the partners the decision table accepts (`levelOk_partnerY`), error … -/
+restate partnerY_err_adjoint := PyamgV.C05Y.partnerY_err_adjoint
+/-- … and residual form -/
+restate partnerY_res_adjoint := PyamgV.C05Y.partnerY_res_adjoint
+/-- a smoother operator symmetric in both senses commutes with `A` (which `ω Aᵀ Dinv` and the Kaczmarz sweeps do not) -/
+restate both_adjoint_commute := PyamgV.C05Y.both_adjoint_commute
+/-- the flag is `True` for `jacobi_ne`/`jacobi_ne`, `gauss_seidel_ne` and `gauss_seidel_nr` forward/backward, and the
+extended model installs these smoothers -/
+restate ne_flagged := PyamgV.C05YEx.ne_flagged
+/-- the 2×2 hierarchy `A = [[2,1],[1,3]]`, `P = [1,1]ᵀ`, `R = Pᵀ`, `A_c = [7]` is exactly symmetric and Galerkin -/
+restate ne_hierarchy_symmetric := PyamgV.C05YEx.ne_hierarchy_symmetric
+/-- `jacobi_ne` on it: `Q = [[2/5, 1/10], [1/5, 3/10]]` … -/
+restate jacobi_ne_Q := PyamgV.C05YEx.jacobi_ne_Q
+/-- … **not an adjoint pair, V- and W-cycle matrices not symmetric, error propagator Euclidean-symmetric** (kernel evaluation
+of the executed model) -/
+restate jacobi_ne_counterexample := PyamgV.C05YEx.jacobi_ne_counterexample
+restate gauss_seidel_ne_counterexample := PyamgV.C05YEx.gauss_seidel_ne_counterexample
+restate gauss_seidel_nr_counterexample := PyamgV.C05YEx.gauss_seidel_nr_counterexample
+
+/-! ### positive definiteness from the smoother parameters -/
+
+/-- SOR row update, energy identity `‖e'‖² = ‖e‖² − ω(2−ω) rᵢ²/dᵢ` (Gauss–Seidel: `ω = 1`) -/
+restate sorRow_energy_eq := PyamgV.C05Y.sorRow_energy_eq
+/-- a full SOR sweep in any order, `0 < ω < 2`, symmetric positive semidefinite matrix with positive diagonal: strict
+reduction of every error of non-zero energy -/
+restate sorSweep_strict := PyamgV.C05Y.sorSweep_strictOn
+/-- damped Jacobi, `0 < ω`, `ω ⟨A z, z⟩ < 2 ⟨D z, z⟩` for `z ≠ 0`: strict reduction -/
+restate jacobi_strict := PyamgV.C05Y.jac_strictOn
+/-- the smoothers of the cycle model with `StrictSm` parameters (Gauss–Seidel / SOR forward, backward, symmetric with
+`0 < ω < 2`; damped Jacobi under the bound; `iterations ≥ 1`) are strict … -/
+restate smoother_strict := PyamgV.C05Y.smFn_strict
+/-- … and with `NonExpSm` parameters non-expansive -/
+restate smoother_nonexp := PyamgV.C05Y.smFn_nonexp
+/-- a V/W/F cycle whose finest pre- or post-smoother is strict (the rest non-expansive, Galerkin, energy-exact coarsest
+solve) strictly reduces every error of non-zero energy -/
+restate cyc_strict := PyamgV.C05Y.cyc_strict
+/-- hence `⟨M r, r⟩ > 0` for `r = A v`, every `v` of non-zero energy: no observed hypothesis -/
+restate cycle_precond_pd := PyamgV.C05Y.cycle_precond_pd
+/-- **flag `True` ⇒ `M` symmetric and positive definite (V and W)** on a Galerkin hierarchy carrying the installed
+smoothers, all non-expansive, the finest pre- or post-smoother strict -/
+restate flag_cycle_spd := PyamgV.C05Y.flag_cycle_spd
+/-- the strictness hypothesis from the installed specification's parameters -/
+restate strict_of_installed := PyamgV.C05Y.strict_of_installed
+/-- non-vacuity: every hypothesis of `flag_cycle_spd` holds on a two-level hierarchy over `ℚ` with forward / backward
+Gauss–Seidel … -/
+restate flag_cycle_spd_example := PyamgV.C05YEx.example_flag_cycle_spd
+/-- … which has vectors of non-zero energy -/
+restate flag_cycle_spd_example_nonzero := PyamgV.C05YEx.example_energy_ne
 
 end PyamgV.Props.C05
